@@ -444,6 +444,10 @@ func (r *Run) returnClass(path *Path) string {
 		}
 		if id, ok := ast.Unparen(res).(*ast.Ident); ok {
 			obj := info.Uses[id]
+			// an error variable that a guard on this path has just found to be nil: this is `return nil`
+			if obj != nil && errVarKnownNil(path, i, ev.Fn, obj) {
+				return "nil"
+			}
 			if rhs, _, ok := lastDefOnPath(ev.Fn, path, i, obj); ok && rhs != nil {
 				if f, _ := r.calleeOfExpr(ev.Fn, rhs); f != nil {
 					if f == r.M().DataTo {
@@ -512,4 +516,52 @@ func (r *Run) pathSig(path *Path) string {
 		}
 	}
 	return strings.Join(parts, ",")
+}
+
+// errVarKnownNil: walking back from event i, the nearest guard of the same function that compares obj
+// with nil says it is nil, and obj is not assigned in between.
+func errVarKnownNil(path *Path, i int, fn *Func, obj types.Object) bool {
+	info := fn.Info()
+	for j := i - 1; j >= 0; j-- {
+		pe := path.Events[j]
+		if pe.Fn != fn {
+			continue
+		}
+		if pe.Kind == EvAssign {
+			for _, l := range pe.Lhs {
+				if lid, ok := ast.Unparen(l).(*ast.Ident); ok && (info.Uses[lid] == obj || info.Defs[lid] == obj) {
+					return false
+				}
+			}
+		}
+		if pe.Kind != EvGuard || pe.Cond == nil {
+			continue
+		}
+		cx, val := ast.Unparen(pe.Cond), pe.Val
+		for {
+			u, ok := cx.(*ast.UnaryExpr)
+			if !ok || u.Op != token.NOT {
+				break
+			}
+			cx, val = ast.Unparen(u.X), !val
+		}
+		be, ok := cx.(*ast.BinaryExpr)
+		if !ok || (be.Op != token.EQL && be.Op != token.NEQ) {
+			continue
+		}
+		var other ast.Expr
+		if isNilIdent(info, be.Y) {
+			other = be.X
+		} else if isNilIdent(info, be.X) {
+			other = be.Y
+		} else {
+			continue
+		}
+		oid, ok := ast.Unparen(other).(*ast.Ident)
+		if !ok || info.Uses[oid] != obj {
+			continue
+		}
+		return (be.Op == token.EQL) == val
+	}
+	return false
 }
